@@ -360,7 +360,7 @@ func universes() []universe {
 		{"ab-d2-g3-r4", ab, 2, 3, kinds7, tricks(ab), 4},
 		{"ab-d3-g2-r4", ab, 3, 2, kinds7, tricks(ab), 4},
 		{"ab-d2-g2-r5", ab, 2, 2, kinds7, tricks(ab), 5},
-		{"abc-d2-g2-r4", abc, 2, 2, kinds7, tricks(abc), 4},
+		{"abc-d2-g2-r3", abc, 2, 2, kinds7, tricks(abc), 3},
 	}
 }
 
